@@ -223,6 +223,12 @@ class {P}Op(str, enum.Enum):
     SUB = "-"
 
 
+class {P}Flags(enum.IntFlag):
+    # flag words may carry undeclared bits (their members have no name)
+    READ = 1
+    WRITE = 2
+
+
 class {P}Symbol:
     # an opaque handle with identity equality (no __eq__): two handles are equal only if they are one object
     def __init__(self, name):
@@ -386,6 +392,10 @@ def core_specs(P: str = "U", variant: int = 0) -> list[CS]:
             body="    def __len__(self):\n        return len(self.elems)\n\n    def __iter__(self):\n        return iter(self.elems)\n\n    def __contains__(self, x):\n        return any(x is e for e in self.elems)\n",
         ),
         CS(f"{P}Hold", (E,), F(FS("blk", "child", f"{P}Coll", "one", (f"{P}Coll",)), FS("alt", "child", f"{P}Coll | None", "opt", (f"{P}Coll",), default="None"))),
+        # field names that differ only in case (properties and children)
+        CS(f"{P}CaseTwin", (E,), F(FS("x", "prop", "int", "int", default="0"), FS("X", "prop", "int", "int", default="0"), FS("n", "child", f"{E} | None", "opt", (E,), default="None"), FS("N", "child", f"{E} | None", "opt", (E,), default="None"))),
+        # an IntFlag-valued property
+        CS(f"{P}FlagNode", (E,), F(FS("fl", "prop", f"{P}Flags", "flags", default=f"{P}Flags(0)"), FS("kid", "child", f"{E} | None", "opt", (E,), default="None"))),
         # defaults that are not interpreter-wide singletons (a big int, a longer string, a non-empty tuple, a Path)
         CS(f"{P}Defaults", (E,), F(FS("big", "prop", "int", "int", default="4096"), FS("name", "prop", "str", "str", default='"function-local"'), FS("dims", "prop", "tuple[int, ...]", "tint", default="(4, 4)"), FS("where", "prop", "Path", "path", default='Path("a/b")'))),
         # a class that re-declares the built-in origin field with another annotation
